@@ -608,7 +608,7 @@ pub fn next(&mut self) -> (r: Option<u16>)
         match self.remain.checked_sub(1) {
             Some(x) => {
                 let ret = self.current;
-                self.current += 1;
+                self.current = self.current.wrapping_add(1);
                 self.remain = x;
                 Some(ret)
             }
